@@ -138,9 +138,12 @@ def check(index, ctx):
                             f"on path [{r.describe_path()}] the returned value does not derive from the QP solution", cls.loc())
                 if name == "UPGrad":
                     Uax = qp["axes"].get("h")
+                    # (the reduction belongs to the weighting wherever it is written — in the class, or in a helper the projected weights are handed to: what
+                    #  identifies it is that it reduces the QP solutions)
+                    on_w = lambda e: _agg.in_weighting(e, W_UP) or "solve_qp" in e.get("in_origin", [])
                     red = [e for e in ev if e["kind"] == "sop" and e["sop"] == "reduce" and e["fn"] == "sum" and e["in_axes"] == ["R", "R"] and e["over_pos"] == [0]
-                           and _agg.in_weighting(e, W_UP)]
-                    other_red = [e for e in ev if e["kind"] == "sop" and e["sop"] == "reduce" and _agg.in_weighting(e, W_UP) and "solve_qp" in e.get("in_origin", []) and e not in red]
+                           and on_w(e)]
+                    other_red = [e for e in ev if e["kind"] == "sop" and e["sop"] == "reduce" and on_w(e) and "solve_qp" in e.get("in_origin", []) and e not in red]
                     if len(red) == 1 and not other_red:
                         ctx.ok("R2", pk + " sum(dim=0)", "sum over dim 0 of W", cls.loc())
                     elif other_red or len(red) > 1:
